@@ -1,7 +1,7 @@
 //! C12 — help and usage always render, list every visible item and nothing hidden.
 //!
 //! Space: help-shape configurations (<= N args from 15 shapes x 13 per-arg modifiers x 11 command
-//! modifiers; always one visible and one hidden subcommand) x terminal widths x 6 entry points
+//! modifiers; always one visible and one hidden subcommand) x terminal widths x 7 entry points
 //! (render_help, render_long_help, render_usage, the errors from `-h`, `--help`, `viscmd -h`).
 //! Oracle: no panic / abort; bounded padding; with the default template every argument and
 //! subcommand visible in that mode is listed in its section, hidden markers occur nowhere; the help
@@ -27,7 +27,7 @@ const CMODS: [&str; 11] = [
 
 fn mk_arg(n: usize, shape: &str, m: &str) -> ArgSpec {
     let id = format!("arg{}", n);
-    let s = if n == 0 { 'x' } else if n == 1 { 'y' } else { 'z' };
+    let s = if n == 0 { 'x' } else if n == 1 { 'y' } else { 'w' };
     let l = format!("long{}", n);
     let mut a = match shape {
         "flag-short" => ArgSpec::flag(&id, Some(s), None),
@@ -188,7 +188,12 @@ fn renders(cmd: &clap::Command) -> Vec<Render> {
     v.push(Render { name: "render_help", long: false, text: cmd.clone().render_help().to_string(), sub_level: false, usage_only: false });
     v.push(Render { name: "render_long_help", long: true, text: cmd.clone().render_long_help().to_string(), sub_level: false, usage_only: false });
     v.push(Render { name: "render_usage", long: false, text: cmd.clone().render_usage().to_string(), sub_level: false, usage_only: true });
-    for (name, argv, long, sub) in [("-h", vec!["prog", "-h"], false, false), ("--help", vec!["prog", "--help"], true, false), ("viscmd -h", vec!["prog", "viscmd", "-h"], false, true)] {
+    for (name, argv, long, sub) in [
+        ("-h", vec!["prog", "-h"], false, false),
+        ("--help", vec!["prog", "--help"], true, false),
+        ("viscmd -h", vec!["prog", "viscmd", "-h"], false, true),
+        ("help viscmd", vec!["prog", "help", "viscmd"], true, true),
+    ] {
         match cmd.clone().try_get_matches_from(argv) {
             Err(e) if e.kind() == clap::error::ErrorKind::DisplayHelp => v.push(Render { name, long, text: e.render().to_string(), sub_level: sub, usage_only: false }),
             Err(e) => v.push(Render { name, long, text: format!("<<not help: {:?}>>", e.kind()), sub_level: sub, usage_only: true }),
@@ -335,6 +340,23 @@ struct Cfg {
 }
 
 fn cfgs(max_args: usize) -> Vec<Cfg> {
+    let mut out = cfgs12(max_args.min(2));
+    if max_args >= 3 {
+        // three plain arguments of every shape combination, default and flattened layout
+        for cm in ["none", "flatten-help"] {
+            for a in 0..SHAPES.len() {
+                for b in 0..SHAPES.len() {
+                    for c in 0..SHAPES.len() {
+                        out.push(Cfg { shapes: vec![(SHAPES[a].into(), "none".into()), (SHAPES[b].into(), "heading".into()), (SHAPES[c].into(), "none".into())], cm });
+                    }
+                }
+            }
+        }
+    }
+    out
+}
+
+fn cfgs12(max_args: usize) -> Vec<Cfg> {
     let mut out = vec![];
     let pairs: Vec<(usize, usize)> = (0..SHAPES.len()).flat_map(|s| (0..MODS.len()).map(move |m| (s, m))).collect();
     for cm in CMODS {
@@ -392,7 +414,7 @@ fn main() {
         journal.start_watchdog("C12");
     }
     let rep = Report::new(PROP, tier, cli.seed);
-    let cs = cfgs(2);
+    let cs = cfgs(tier.pick(2, 3));
     let widths: Vec<usize> = match tier {
         Tier::Quick => vec![0, 1, 5, 10, 20, 40, 79, 80, 100, 200],
         Tier::Thorough => (0..=200).collect(),
@@ -402,8 +424,8 @@ fn main() {
         Tier::Quick => vec![0, 5, 30, 80],
         Tier::Thorough => vec![0, 1, 2, 3, 5, 8, 10, 15, 20, 30, 40, 60, 79, 80, 81, 100, 120, 200],
     };
-    rep.rule("block = one help-shape configuration (<= 2 arguments from 15 shapes x 13 modifiers, x 11 command modifiers; one visible + one hidden + one more visible subcommand always present); case = (width, entry point) over 6 entry points; each render is checked for panics, padding, listing of visible items in their section and absence of hidden markers. non-trivial = renders on which the listing/hidden clauses were evaluated (default template, not usage-only)");
-    rep.set("bounds", json!({"configurations": cs.len(), "shapes": SHAPES, "arg_modifiers": MODS, "command_modifiers": CMODS, "widths_one_arg": widths, "widths_two_args": widths2, "entry_points": ["render_help", "render_long_help", "render_usage", "-h", "--help", "viscmd -h"]}));
+    rep.rule("block = one help-shape configuration (<= 2 arguments from 15 shapes x 13 modifiers, x 11 command modifiers; one visible + one hidden + one more visible subcommand always present); case = (width, entry point) over 7 entry points (render_help, render_long_help, render_usage, -h, --help, viscmd -h, help viscmd); each render is checked for panics, padding, listing of visible items in their section and absence of hidden markers. non-trivial = renders on which the listing/hidden clauses were evaluated (default template, not usage-only)");
+    rep.set("bounds", json!({"configurations": cs.len(), "shapes": SHAPES, "arg_modifiers": MODS, "command_modifiers": CMODS, "widths_one_arg": widths, "widths_two_args": widths2, "entry_points": ["render_help", "render_long_help", "render_usage", "-h", "--help", "viscmd -h", "help viscmd"]}));
     rep.assume("listing clauses apply to the default template only; custom templates are checked for panics and padding; required hidden arguments may appear in usage and are not checked");
 
     if let Some((b, w)) = single {
@@ -443,10 +465,10 @@ fn main() {
             if w == ws[0] {
                 accepted_list.lock().unwrap().push(bi);
             }
-            h.evaluations += 6;
-            h.states += 6;
-            h.transitions += 6;
-            h.validated += 6;
+            h.evaluations += 7;
+            h.states += 7;
+            h.transitions += 7;
+            h.validated += 7;
             if spec.template.is_none() {
                 h.nontrivial += 4;
             }
